@@ -203,6 +203,27 @@ impl WirePeer {
         }
     }
 
+    /// a connection exists whose session task has not ended
+    pub fn has_connection(&self) -> bool {
+        self.stream.is_some() && self.task.as_ref().is_some_and(|t| !t.is_finished())
+    }
+
+    /// wait (real time) until the daemon's session task has ended on its own - after the daemon closed
+    /// the connection - keeping our end open meanwhile
+    pub async fn wait_task_end(&mut self) -> Result<(), Failure> {
+        if let Some(t) = self.task.take() {
+            for _ in 0..4000 {
+                self.settle().await;
+                if t.is_finished() {
+                    self.stream = None;
+                    return Ok(());
+                }
+            }
+            return Err(Failure::new("session-task-hangs", "the daemon's session task did not end after the daemon closed the session".to_string()));
+        }
+        Ok(())
+    }
+
     /// close our end and wait for the daemon's session task to finish
     pub async fn close(&mut self) -> Result<(), Failure> {
         self.stream = None;
